@@ -92,6 +92,12 @@ def counter_shape(ctx):
     guards = [s for s in b if isinstance(s, ast.If) and any(isinstance(x, ast.Raise) for x in s.body)]
     augs = [s for s in b if isinstance(s, ast.AugAssign)]
     shape = {unparse(a.target): (type(a.op).__name__, unparse(a.value)) for a in augs}
+    # the spelled-out form `f = f + v` of an int / float field is the same update
+    for s_ in b:
+        if isinstance(s_, ast.Assign) and len(s_.targets) == 1 and isinstance(s_.value, ast.BinOp) and isinstance(s_.value.op, ast.Add) \
+                and unparse(s_.value.left) == unparse(s_.targets[0]):
+            augs.append(s_)
+            shape[unparse(s_.targets[0])] = ('Add', unparse(s_.value.right))
     cf = prog.simple_return('Counter', 'count')
     nf = prog.simple_return('Counter', 'n')
     ok = bool(guards) and f'isinstance({p}, int)' in unparse(guards[0].test) and len(augs) == 2 and len(b) == len(guards) + 2 \
@@ -124,9 +130,23 @@ def timestamp_protocol(ctx):
     fn = prog.method('TimestampWeightedTally', 'register', inherited=False)
     ts, val = fn.args.args[1].arg, fn.args.args[2].arg
     g = CFG(fn)
+    # the fields are found through their getters / their role, not by name (a renamed private field is the same protocol)
+    def _getter_field(m, default):
+        e = prog.simple_return('TimestampWeightedTally', m)
+        return e.attr if isinstance(e, ast.Attribute) and unparse(e.value) == 'self' else default
+    ACTIVE = _getter_field('isactive', '_active')
+    LASTV = _getter_field('last_value', '_last_value')
+    LASTT = '_last_timestamp'
+    for i_ in walk_shallow(fn):
+        if isinstance(i_, ast.If) and any(isinstance(x, ast.Raise) for x in i_.body) and isinstance(i_.test, ast.Compare) and len(i_.test.ops) == 1:
+            l_, r_ = i_.test.left, i_.test.comparators[0]
+            if isinstance(i_.test.ops[0], ast.Lt) and unparse(l_) == ts and is_self_attr(r_):
+                LASTT = r_.attr
+            elif isinstance(i_.test.ops[0], ast.Gt) and unparse(r_) == ts and is_self_attr(l_):
+                LASTT = l_.attr
     # earlier-timestamp raise
     og = [i for i in walk_shallow(fn) if isinstance(i, ast.If) and any(isinstance(x, ast.Raise) for x in i.body)
-          and unparse(i.test) in (f'{ts} < self._last_timestamp', f'self._last_timestamp > {ts}')]
+          and unparse(i.test) in (f'{ts} < self.{LASTT}', f'self.{LASTT} > {ts}')]
     ok = len(og) == 1
     ctx.ob('R10.4', 'order-guard', ok, sample=f'register refuses `{short(og[0].test) if og else "?"}`')
     if not ok:
@@ -140,7 +160,7 @@ def timestamp_protocol(ctx):
     if ok:
         node = _node_containing(g, calls[0])
         for (cn, br) in g.guard_branches(node):
-            ge = GuardEval(prog, 'TimestampWeightedTally', {('bool', 'self._active'): False})
+            ge = GuardEval(prog, 'TimestampWeightedTally', {('bool', f'self.{ACTIVE}'): False})
             r = ge.ev(cn.ast)
             if r is not None and r != br:
                 active = True
@@ -151,13 +171,13 @@ def timestamp_protocol(ctx):
             w = asg[0].value if len(asg) == 1 else w
         wexpr = w
     wt = unparse(wexpr) if wexpr is not None else ''
-    nonneg = wt in (f'max(0.0, {ts} - self._last_timestamp)', f'max(0, {ts} - self._last_timestamp)', f'max({ts} - self._last_timestamp, 0.0)',
-                    f'max({ts} - self._last_timestamp, 0)')
-    if not nonneg and wt == f'{ts} - self._last_timestamp' and calls:
+    nonneg = wt in (f'max(0.0, {ts} - self.{LASTT})', f'max(0, {ts} - self.{LASTT})', f'max({ts} - self.{LASTT}, 0.0)',
+                    f'max({ts} - self.{LASTT}, 0)')
+    if not nonneg and wt == f'{ts} - self.{LASTT}' and calls:
         # allowed when dominated by ts > last
         node = _node_containing(g, calls[0])
-        nonneg = any(unparse(cn.ast).find(f'{ts} > self._last_timestamp') >= 0 and br for (cn, br) in g.guard_branches(node))
-    valok = bool(calls) and len(calls[0].args) >= 2 and unparse(calls[0].args[-1]) == 'self._last_value'
+        nonneg = any(unparse(cn.ast).find(f'{ts} > self.{LASTT}') >= 0 and br for (cn, br) in g.guard_branches(node))
+    valok = bool(calls) and len(calls[0].args) >= 2 and unparse(calls[0].args[-1]) == f'self.{LASTV}'
     ok = ok and active and nonneg and valok
     ctx.ob('R10.4', 'accumulate', ok, sample=f'base register({wt}, {unparse(calls[0].args[-1]) if calls else "?"}) only while active: {active}; weight non-negative: {nonneg}')
     if not ok:
@@ -165,8 +185,8 @@ def timestamp_protocol(ctx):
                     f'the interval accumulation must be `super().register(max(0, t - last), last_value)` under `_active` (active-guard {active}, non-negative weight {nonneg}, '
                     f'previous value {valok})', where='TimestampWeightedTally.register')
     # last value / last timestamp updated from the parameters
-    lv = [a for a in walk_shallow(fn) if isinstance(a, ast.Assign) and any(is_self_attr(t, '_last_value') for t in a.targets)]
-    lt = [a for a in walk_shallow(fn) if isinstance(a, ast.Assign) and any(is_self_attr(t, '_last_timestamp') for t in a.targets)]
+    lv = [a for a in walk_shallow(fn) if isinstance(a, ast.Assign) and any(is_self_attr(t, LASTV) for t in a.targets)]
+    lt = [a for a in walk_shallow(fn) if isinstance(a, ast.Assign) and any(is_self_attr(t, LASTT) for t in a.targets)]
     ok = len(lv) == 1 and unparse(lv[0].value) == val and bool(lt) and all(unparse(a.value) == ts for a in lt) \
         and not g.reaches(g.entry, g.exit, avoid=_nodes_containing(g, lv[0]), labels_excluded=NORMAL)
     ctx.ob('R10.4', 'remember-last', ok, sample=f'_last_value := {[unparse(a.value) for a in lv]} on every accepted path; _last_timestamp := {[unparse(a.value) for a in lt]}')
@@ -177,7 +197,7 @@ def timestamp_protocol(ctx):
     eo = prog.method('TimestampWeightedTally', 'end_observations', inherited=False)
     p = eo.args.args[1].arg
     b = body_of(eo)
-    ok = len(b) == 2 and unparse(b[0]) == f'self.register({p}, self._last_value)' and unparse(b[1]) == 'self._active = False'
+    ok = len(b) == 2 and unparse(b[0]) == f'self.register({p}, self.{LASTV})' and unparse(b[1]) == f'self.{ACTIVE} = False'
     ctx.ob('R10.4', 'end_observations', ok, sample=f'end_observations: {[short(s) for s in b]}')
     if not ok:
         ctx.finding('R10.4', 'TimestampWeightedTally.end_observations', ci, eo, 'end_observations must be `self.register(t, last_value)` followed by `_active = False`',
@@ -253,19 +273,23 @@ def r112_notify_dispatch(ctx):
             acts = []
 
             def walk(stmts):
+                """collects the actions of the path chosen by the event class; True when the path has returned"""
                 for s in stmts:
                     if isinstance(s, ast.If):
                         v = ge.ev(s.test)
                         if v is None:
                             acts.append('undetermined:' + short(s.test, 40))
-                        else:
-                            walk(s.body if v else s.orelse)
+                        elif walk(s.body if v else s.orelse):
+                            return True
                     elif isinstance(s, ast.Expr) and isinstance(s.value, ast.Call):
                         acts.append(s.value)
                     elif isinstance(s, ast.Pass):
                         pass
+                    elif isinstance(s, ast.Return) and (s.value is None or (isinstance(s.value, ast.Constant) and s.value.value is None)):
+                        return True                     # early return instead of elif
                     else:
                         acts.append('stmt:' + short(s, 40))
+                return False
             walk(body_of(fn))
             ctx.examined()
             ok = False
@@ -472,3 +496,54 @@ def coercion_before_write(ctx, rule, classes):
                             f'`{short(late[0].ast, 60)}` is executed before `{p}` has been through any float operation: an int observation beyond float range '
                             f'(10**400) passes the type and NaN checks and raises OverflowError only later, after the statistic has been changed', where=f'{c}.register')
     ctx.floor(rule, 'numeric observation parameters', n, 1)
+
+
+# --------------------------------------------------------------------------- class-level mutable state shared by all instances
+MUTATORS = ('append', 'extend', 'insert', 'remove', 'pop', 'clear', 'update', 'setdefault', 'add', 'discard', 'popitem', 'sort', 'reverse', 'appendleft')
+
+
+def shared_class_state(ctx, rule, class_names, consequence):
+    """A container created once in the class body and changed through instances is one object for all instances (and
+    all subclasses): what one instance stores, every other instance sees.  Flags class-level containers that some
+    method mutates through `self` / `cls` / `type(self)` unless every constructor path re-binds the name per instance."""
+    prog = ctx.prog
+    ctx.rule(rule, 'no container created in a class body is mutated through instances (per-instance state is bound in the constructor)')
+    n = 0
+    for cname in class_names:
+        ci = prog.classes.get(cname)
+        if ci is None:
+            continue
+        for (name, value, stmt) in ci.all_assigns:
+            mutable = isinstance(value, (ast.Dict, ast.List, ast.Set, ast.DictComp, ast.ListComp, ast.SetComp)) or \
+                (isinstance(value, ast.Call) and unparse(value.func).split('.')[-1] in ('dict', 'list', 'set', 'defaultdict', 'OrderedDict', 'deque', 'Counter'))
+            if not mutable:
+                continue
+            n += 1
+            muts = []
+            rebinds_in_init = False
+            for sub in prog.subclasses(cname, strict=False):
+                sci = prog.classes[sub]
+                for mname, fn in list(sci.methods.items()) + list(sci.setters.items()):
+                    for x in walk_shallow(fn):
+                        base = None
+                        if isinstance(x, ast.Subscript) and isinstance(x.ctx, (ast.Store, ast.Del)) and isinstance(x.value, ast.Attribute) and x.value.attr == name:
+                            base = x.value.value
+                        elif isinstance(x, ast.Call) and isinstance(x.func, ast.Attribute) and x.func.attr in MUTATORS \
+                                and isinstance(x.func.value, ast.Attribute) and x.func.value.attr == name:
+                            base = x.func.value.value
+                        elif isinstance(x, ast.AugAssign) and isinstance(x.target, ast.Attribute) and x.target.attr == name:
+                            base = x.target.value
+                        if base is not None and unparse(base) in ('self', 'cls', 'type(self)', 'self.__class__'):
+                            muts.append((sub, mname, x))
+                    if mname == '__init__' and sub == cname:
+                        stores = [a for a in body_of(fn) if isinstance(a, (ast.Assign, ast.AnnAssign)) and
+                                  any(is_self_attr(t, name) for t in (a.targets if isinstance(a, ast.Assign) else [a.target]))]
+                        rebinds_in_init = bool(stores)            # top-level statement of the constructor: on every normal path
+            ok = not muts or rebinds_in_init
+            ctx.ob(rule, f'{cname}.{name}', ok, sample=f'{cname}.{name} = {short(value, 30)} (class body): mutated through instances at {len(muts)} site(s); re-bound per instance in __init__: {rebinds_in_init}')
+            if not ok:
+                sub, mname, x = muts[0]
+                ctx.finding(rule, f'{cname}.{name}:shared', ci, stmt,
+                            f'`{name}` is created once in the class body and mutated through instances (`{short(x, 50)}` in {sub}.{mname}): all {cname} objects share it, so {consequence}',
+                            where=cname)
+    ctx.note(f'{rule}: {n} class-level containers examined in {len(class_names)} classes')
